@@ -105,6 +105,9 @@ class Ref:
         if name == "del":
             m.pop(unhx(a[0]), None); return "ok"
         if name == "bput":
+            nk, nv, nt = len(lst(a[0])), len(lst(a[1])), (0 if a[2] == "." else len(lst(a[2])))
+            if nk != nv or (nt > 0 and nk != nt):
+                return "err args"      # refused before any request
             for k, v in zip(lst(a[0]), lst(a[1])):
                 m[unhx(k)] = unhx(v)
             return "ok"
@@ -222,6 +225,10 @@ def check_wire(ref, name, a, bats, wire):
 def check_op(ref, name, a, cf, lays, bats, impl, wire=()):
     """returns list of (oracle name, expected, detail) failures for one call"""
     fails = check_wire(ref, name, a, bats, wire)
+    if "FAIL" in lays and name in ("put", "get", "del", "cas", "scan", "rscan", "cksum"):
+        # a request answered by an application error or without a body: the call reports it and changes nothing
+        exp = "err atomic" if (name == "cas" and ref.nonatomic) else "err injected"
+        return fails + ([] if impl == exp else [("failed-request-surfaces-as-error", exp, impl)])
     if impl == "err injected" and "FAIL" in lays:
         return fails + check_failed_call(ref, name, a, cf, lays, bats)
     lays = [l for l in lays if l != "FAIL"]
@@ -292,11 +299,14 @@ def parse_op(line):
     args = f[4:ci]
     cf = f[ci][2:]
     li = ci + 1
+    atomic = None
+    if f[li].startswith("A="):
+        atomic = f[li] == "A=1"; li += 1
     lays = f[li][2:].split(";") if f[li] != "L=none" else []
     bats = f[li + 1][2:].split(";") if f[li + 1] != "B=none" else []
     n = f[li + 2][2:].split(",")
     wire = f[li + 3][2:].split(";") if f[li + 3].startswith("W=") and f[li + 3] != "W=none" else []
-    return int(f[1]), int(f[2]), f[3], args, cf, lays, bats, (int(n[0]), int(n[1])), f[-1], wire
+    return int(f[1]), int(f[2]), f[3], args, cf, lays, bats, (int(n[0]), int(n[1])), f[-1], wire, atomic
 
 
 def check_history(h):
@@ -436,7 +446,9 @@ def main(tier, replay):
                         if bad[0]:
                             conc_fail.append((chunk, int(f[1]), bad[0]))
                 elif line.startswith("OP\t"):
-                    sid, idx, name, args, cf, lays, bats, (nrpc, nerr), impl, wire = parse_op(line)
+                    sid, idx, name, args, cf, lays, bats, (nrpc, nerr), impl, wire, atomic = parse_op(line)
+                    if atomic is not None:
+                        ref.nonatomic = not atomic     # the atomic-mode field may change between calls
                     sid = (chunk, sid)
                     stats["ops"] += 1
                     stats["served_rpcs"] += len(lays); stats["region_errors"] += nerr
